@@ -69,7 +69,15 @@ def field_type(f):
 def field_decl(f, vis=""):
     lines = []
     if f.get("doc"):
-        lines.append("/// " + f["doc"])
+        form = f.get("doc_form", "///")
+        if form == "///":
+            lines.append("/// " + f["doc"])
+        elif form == "attr":
+            lines.append("#[doc = %s]" % rstr(f["doc"]))
+        else:
+            lines.append("#[doc = concat!(%s, %s)]" % (rstr(f["doc"][:3]), rstr(f["doc"][3:])))
+    for a in f.get("extra_attrs", []):
+        lines.append(a)
     lines.append(field_attr(f))
     lines.append("%s%s: %s," % (vis, f["name"], field_type(f)))
     return lines
@@ -140,7 +148,7 @@ def bitfield_decl(case, vis=None, docs=False):
     for f in case["fields"]:
         f2 = f
         if docs and not f.get("doc"):
-            f2 = dict(f, doc="field %s" % f["name"].replace("r#", ""))
+            f2 = dict(f, doc="field %s" % f["name"].replace("r#", ""), doc_form=("///", "attr", "concat", "///")[(len(f["name"]) + f["ranges"][0][0]) % 4])
         for l in field_decl(f2, vis=("pub " if case.get("pub_fields") else "")):
             lines.append("    " + l)
     lines.append("}")
